@@ -18,6 +18,9 @@ import (
 	"verif/internal/opdrv"
 )
 
+// vstore names the flow of every token request it is asked to mint for
+var flowOp = map[string]int{"auth_request": opCode, "refresh": opRefresh, "client_credentials": opCC, "jwt_profile": opBearer, "token_exchange": opTE, "device": opDevice}
+
 var sampleKinds = map[string]bool{
 	"success": true, "refused:wrong-secret": true, "refused:grant-unregistered": true, "refused:unknown-client": true,
 	"refused:wrong-kind-secret": true, "refused:wrong-kind-assertion": true, "refused:bad-assertion": true,
@@ -98,7 +101,14 @@ func execute(run *ev.Run, s *spec, router int, pl pool) {
 	run.Eval()
 
 	o := observe(resp)
+	served := -1 // the grant whose token request reached the storage (from the journal)
 	for _, e := range journal {
+		if e.Err == "" && (e.Method == "CreateAccessToken" || e.Method == "CreateAccessAndRefreshTokens") {
+			flow, _, _ := strings.Cut(e.A, "|")
+			if so, ok := flowOp[flow]; ok {
+				served = so
+			}
+		}
 		if e.Mutating() && e.Err == "" {
 			o.mutating = append(o.mutating, e.Method)
 			if e.Method == "StoreDeviceAuthorization" && s.Op == opDevAuth {
@@ -141,12 +151,43 @@ func execute(run *ev.Run, s *spec, router int, pl pool) {
 		return
 	}
 
+	run.Count("placement:grant_type", s.GTPlaceStr)
+	run.Count("placement:credentials", s.CredStr)
+	run.Count("placement:parameters", s.ParamStr)
+
+	// A device authorization must be stored for the client that authenticated / identified itself in the way it is
+	// registered - never for a client that is merely named in the form.
+	if s.Op == opDevAuth && o.status < 300 {
+		if dc, _ := resp.JSON()["device_code"].(string); dc != "" {
+			expected := id
+			switch s.Pres {
+			case pMixedBasic:
+				expected = otherBID
+			case pMixedAssert:
+				expected = otherJID
+			}
+			if rec, ok := w.Store.DeviceRecord(dc); ok {
+				witness["stored_for_client"] = rec.ClientID
+				if rec.ClientID != expected && p.claim != claimNone && p.claim != claimUnknown {
+					run.Count("outcome", "devauth:stored-for-other-client")
+					run.Violation("C05:"+rn+":device_authorization:acted-for-other-client", int64(s.Idx), fmt.Sprintf("device authorization answered %d and stored the device code for client %q although the client that authenticated / identified itself is %q (presentation %s)", o.status, rec.ClientID, expected, presNames[s.Pres]), witness)
+					return
+				}
+				if p.claim == claimMixed || s.Pres == pOwnBasicOtherID || s.Pres == pOwnAssertOtherID {
+					run.Observed("devauth-mixed-identity-stored-for-authenticated-client:" + rn)
+				}
+				run.Count("devauth_stored_for", map[bool]string{true: "the acting client", false: "another client"}[rec.ClientID == expected])
+			}
+		}
+	}
+
 	regTarget := "n/a"
 	if g := opGrant[s.Op]; g != "" {
 		regTarget = fmt.Sprintf("reg=%v,off=%v", s.has(g), s.grantDisabled(g))
 	}
 	run.Distinct(strings.Join([]string{rn, opNames[s.Op], presNames[s.Pres], authNames[s.Auth], regTarget, s.AppName,
-		fmt.Sprint(s.Dual), fmt.Sprintf("post=%v,pkjwt=%v", s.Post, s.PKJWT), fmt.Sprint(s.IDFlavor), fmt.Sprint(strings.HasPrefix(s.Secret, reservedSecret))}, "|"))
+		fmt.Sprint(s.Dual), fmt.Sprintf("post=%v,pkjwt=%v", s.Post, s.PKJWT), fmt.Sprint(s.IDFlavor), fmt.Sprint(strings.HasPrefix(s.Secret, reservedSecret)),
+		s.GTPlaceStr + "/" + s.DecoyName, s.CredStr, s.ParamStr}, "|"))
 
 	success := false
 	switch s.Op {
@@ -194,6 +235,19 @@ func execute(run *ev.Run, s *spec, router int, pl pool) {
 		return
 	}
 
+	// grant_type named two grants: whichever was served must be open to the client
+	if s.gtDiffers() {
+		run.Count("two_grant_types", fmt.Sprintf("%s %s -> served=%s", rn, s.GTPlaceStr, map[bool]string{true: "nothing", false: "a grant"}[served < 0]))
+		if success && served >= 0 && p.claim == claimOwn {
+			run.Count("two_grant_types_served", rn+":"+opNames[served])
+			if why := s.badGrant(served); why != "" {
+				run.Count("outcome", "mustRefuse:VIOLATED")
+				run.Violation("C05:"+rn+":"+opNames[served]+":"+why, int64(s.Idx), fmt.Sprintf("%s request with grant_type %s (target %s, decoy %s) was served as %s although that grant is closed to the client (%s)", rn, s.GTPlaceStr, opNames[s.Op], opNames[s.Decoy], opNames[served], why), witness)
+				return
+			}
+		}
+	}
+
 	// the statement leaves this request open: count what happened
 	for _, g := range v.grey {
 		run.Count("grey_outcome", fmt.Sprintf("%s:%s -> success=%v", rn, g, success))
@@ -201,7 +255,13 @@ func execute(run *ev.Run, s *spec, router int, pl pool) {
 	if success {
 		run.Count("outcome", "open:success")
 		run.Count("success_by_presentation", presNames[s.Pres])
-		if p.canonical || s.Auth == authNone {
+		if s.GTPlace == gtQuery {
+			run.Observed("ok-with-grant_type-in-query-only:" + rn)
+		}
+		if s.CredPlace == placeQuery && (p.rightSecret || p.validAssertion) {
+			run.Observed("ok-with-credentials-in-query-only:" + rn)
+		}
+		if (p.canonical || s.Auth == authNone) && !s.gtDiffers() {
 			run.Observed("ok:" + cell)
 			run.Count("positive_cells", cell+":"+authNames[s.Auth])
 		}
@@ -224,7 +284,7 @@ func runCase(run *ev.Run, i int, pl pool) {
 
 func main() {
 	run := ev.Start("C05", "exploration")
-	run.SetRule(fmt.Sprintf("case index i enumerates the core product endpoint/grant(%d) x credential presentation(%d) x registered auth method(%d) x grant-list shape(%d) = %d cells cyclically; provider flags (AuthMethodPost, AuthMethodPrivateKeyJWT, GrantTypeRefreshToken), storage capability subset, application type, dual credential material, id/secret alphabets, token kinds are drawn per case; each case runs on both routers after minting valid grant material through the real flows; distinct = distinct vectors (router, cell, presentation, auth method, target grant registered/disabled, app type, dual, post/pkjwt flags, id flavour, secret flavour) whose request was answered and judged",
+	run.SetRule(fmt.Sprintf("case index i enumerates the core product endpoint/grant(%d) x credential presentation(%d) x registered auth method(%d) x grant-list shape(%d) = %d cells cyclically; provider flags (AuthMethodPost, AuthMethodPrivateKeyJWT, GrantTypeRefreshToken), storage capability subset, application type, dual credential material, id/secret alphabets, token kinds, and the placement of grant_type (body / URL query only / both equal / two different grants in query and body), of the client credentials and of the grant parameters (body / query / both / secret differing) are drawn per case; when grant_type names two grants the grant obligations are judged by the grant actually served (storage journal); every 2xx device authorization is checked to be stored for the acting client; each case runs on both routers after minting valid grant material through the real flows; distinct = distinct vectors (router, cell, presentation, auth method, target grant registered/disabled, app type, dual, post/pkjwt flags, id flavour, secret flavour) whose request was answered and judged",
 		numOps, numPres, numAuth, numGrantKinds, coreCells))
 	run.Assume(
 		"vstore policy: AuthorizeClientIDSecret / ClientCredentials compare the stored secret only (an empty stored secret never matches); GetKeyByIDAndClientID returns keys registered under exactly that client id",
@@ -241,6 +301,7 @@ func main() {
 		for _, r := range []string{"unknown-client", "no-client", "wrong-secret", "wrong-kind-secret", "wrong-kind-assertion", "bad-assertion", "no-credential", "grant-unregistered", "grant-disabled", "grant-unknown", "malformed-credential", "mixed-identity"} {
 			mand = append(mand, "seen:"+rn+":"+r)
 		}
+		mand = append(mand, "ok-with-grant_type-in-query-only:"+rn, "devauth-mixed-identity-stored-for-authenticated-client:"+rn)
 	}
 	n := run.N(3*coreCells, 80*coreCells)
 	if rc := run.ReplayCase(); rc >= 0 {
